@@ -211,11 +211,18 @@ def r3(c):
             xs = q.exits(b)
             okx = [x for x in xs if x['kind'] == 'agg' and x['variant'] == 'Ok']
             erx = [x for x in xs if x['kind'] == 'agg' and x['variant'] == 'Err']
-            ok = ok and len(okx) == 1 and len(erx) == 1 and q.dominated_by_any(b, oc.get('Some', []), okx[0]['node']) and q.dominated_by_any(b, oc.get('None', []), erx[0]['node'])
-            ok = ok and q.agg_variant_of(b, erx[0]['rv']['a'][0]) == (EXC_, 'IllegalDataAddress')
-            if ok:
-                v = q.sem(b, okx[0]['rv']['a'][0])
-                ok = v.kind == 'call' and v.cs is g[0]
+            adapters = [x for x in xs if x['kind'] == 'call' and x['cs'].is_('core::option::Option::ok_or')]
+            if len(xs) == 1 and len(adapters) == 1:
+                # `map.get(&address).copied().ok_or(IllegalDataAddress)`: Some(v) -> Ok(v), None -> Err(that code)
+                a = adapters[0]['cs']
+                v = q.sem(b, a.args[0])
+                ok = ok and v.kind == 'call' and v.cs is g[0] and not v.proj and q.agg_variant_of(b, a.args[1]) == (EXC_, 'IllegalDataAddress')
+            else:
+                ok = ok and len(okx) == 1 and len(erx) == 1 and q.dominated_by_any(b, oc.get('Some', []), okx[0]['node']) and q.dominated_by_any(b, oc.get('None', []), erx[0]['node'])
+                ok = ok and q.agg_variant_of(b, erx[0]['rv']['a'][0]) == (EXC_, 'IllegalDataAddress')
+                if ok:
+                    v = q.sem(b, okx[0]['rv']['a'][0])
+                    ok = v.kind == 'call' and v.cs is g[0]
         c.ob('read/%s' % m, ok, '%s reads database.%s[address]; None -> IllegalDataAddress' % (m, fld), '', loc_of(b))
         n += 1 if ok else 0
     c.exact('read wrappers', n, 4)
